@@ -3,6 +3,7 @@
 from __future__ import annotations
 
 import asyncio
+import random
 
 from vlib.peers_tunnel import Gateway, make_cemi, tag_of
 from vlib.vloop import Deadlock, LoopBudget, new_loop
@@ -30,9 +31,11 @@ LEVEL_TEXT = (
 LEVEL_NOTE = (
     "Trusted: virtual loop, scripted gateway. Judged per injected frame (reactions are matched by virtual instant, so deferred "
     "reactions in the same instant pass): number, counter, channel and status of acknowledgements, and which tags reach the "
-    "callback, how often and in which order. Frames are only injected while the server regards the connection as established "
-    "(after its ConnectResponse was delivered, before either side sent a DisconnectRequest): the statement does not cover frames "
-    "during a handshake. Not judged: order of ACK vs. callback, the tunnel's own 2 s reconnect shortcut (only that the counter "
+    "callback, how often and in which order. A connection counts as established once its ConnectResponse has "
+    "been delivered: every second block of histories also delivers server frames in the same datagram burst as each "
+    "ConnectResponse (consecutive deliveries in one callback, and at +0 via call_soon), for the first connect and every reconnect; "
+    "no frame is injected after either side sent a DisconnectRequest. Frames sharing an instant are matched in order. Only the "
+    "first frame handled differently from the reference is reported per history. Not judged: order of ACK vs. callback, the tunnel's own 2 s reconnect shortcut (only that the counter "
     "restarts at 0 on the connection that follows), frames for another communication channel (not injected), the "
     "address an ACK is sent to (recorded against the data endpoint announced per connection)."
 )
@@ -142,7 +145,10 @@ class Ref:
         return "O"
 
 
-def run_history(kind, ops, route_back=False, gw_route_back=False):
+BURSTS = ([0], [0, 1], [0, 0, 1], [0, 1, 2], [0, 1, 1, 2], [1], [0, 2, 1], [255, 0])
+
+
+def run_history(kind, ops, route_back=False, gw_route_back=False, burst=None, burst_seed=0):
     """Deliver one history to the real endpoint; returns (injections, acks, callbacks, error, log)."""
     loop = new_loop()
     gw = Gateway(loop)
@@ -161,6 +167,19 @@ def run_history(kind, ops, route_back=False, gw_route_back=False):
 
     if kind != "devmgmt":
         gw.listeners.append(listener)
+    brng = random.Random(burst_seed)
+
+    def deliver_burst():
+        # server frames in the same datagram burst as the ConnectResponse (initial connect and every reconnect)
+        if not (ref.established and gw.channel is not None):
+            return
+        for c in brng.choice(BURSTS):
+            inject(c, "burst with ConnectResponse", burst=True)
+
+    if burst == "same-callback" and kind != "devmgmt":
+        gw.after_connect_response = deliver_burst
+    elif burst == "call-soon" and kind != "devmgmt":
+        gw.after_connect_response = lambda: loop.call_soon(deliver_burst)
 
     def cb_raw(raw):
         gw.note("cb", tag=tag_of(raw))
@@ -168,7 +187,7 @@ def run_history(kind, ops, route_back=False, gw_route_back=False):
     def cb_ind(cemi):
         gw.note("cb", tag=int.from_bytes(cemi.data.data, "big"))
 
-    def inject(c, why):
+    def inject(c, why, burst=False):
         c &= 0xFF
         box["tag"] += 1
         tag = box["tag"]
@@ -176,7 +195,7 @@ def run_history(kind, ops, route_back=False, gw_route_back=False):
         wrap = ref.expected in (255, 0) and ref.in_epoch > 0
         verdict = ref.evaluate(c)
         injections.append({"i": len(injections), "t": loop.time(), "epoch": ref.epoch, "c": c, "tag": tag, "verdict": verdict,
-                           "why": why, "ch": gw.channel, "pos": epoch_pos, "wrap": wrap})
+                           "why": why, "ch": gw.channel, "pos": epoch_pos, "wrap": wrap, "burst": burst})
         if kind == "tunnel":
             gw.send_tunnelling_request(c, make_cemi(tag, CEMIMessageCode.L_DATA_IND).to_knx())
         elif kind == "devmgmt":
@@ -217,6 +236,8 @@ def run_history(kind, ops, route_back=False, gw_route_back=False):
                 ep.start()
                 gw.channel = 33
                 ref.new_connection()
+                if burst:
+                    deliver_burst()
 
         async def ensure_established():
             if ref.established and gw.channel is not None:
@@ -297,38 +318,55 @@ def run_history(kind, ops, route_back=False, gw_route_back=False):
 
 
 def judge(injections, acks, cbs):
-    """Compare with the reference per injected frame. Returns list of (mechanism, detail)."""
+    """Compare with the reference per injected frame. Returns list of (mechanism, detail).
+
+    Reactions are matched by virtual instant; frames sharing an instant (a burst) are matched in order: acknowledgements
+    leave in the order the frames were handled, payloads are identified by their tag.
+    """
     problems = []
-    by_time = {inj["t"]: inj for inj in injections}
+    groups = {}
+    for inj in injections:
+        groups.setdefault(inj["t"], []).append(inj)
     acks_at = {}
     for a in acks:
         acks_at.setdefault(a[0], []).append(a)
-    cbs_at = {}
+    cb_count = {}
     for c in cbs:
-        cbs_at.setdefault(c[0], []).append(c)
+        cb_count[(c[0], c[1])] = cb_count.get((c[0], c[1]), 0) + 1
     name = {"E": "expected", "R": "repeated", "O": "out-of-order"}
-    for inj in injections:
-        a = acks_at.get(inj["t"], [])
-        c = cbs_at.get(inj["t"], [])
-        v = inj["verdict"]
-        want_ack = 1 if v in "ER" else 0
-        want_cb = 1 if v == "E" else 0
-        d = {"injection": inj, "acks": [x[1:] for x in a], "passed_up": [x[1] for x in c]}
-        if len(a) != want_ack:
-            problems.append((f"{name[v]}-frame-acknowledged-{len(a)}-times", d))
-        elif a and (a[0][2] != inj["c"] or a[0][3] != "E_NO_ERROR"):
-            problems.append((f"{name[v]}-frame-acknowledged-with-another-counter-or-status", d))
-        elif a and a[0][1] != inj["ch"]:
-            problems.append((f"{name[v]}-frame-acknowledged-on-another-channel", d))
-        if len(c) != want_cb:
-            problems.append((f"{name[v]}-frame-passed-up-{len(c)}-times", d))
-        elif c and c[0][1] != inj["tag"]:
-            problems.append((f"{name[v]}-frame-passed-up-with-another-payload", d))
+    for t, group in groups.items():
+        queue = list(acks_at.get(t, []))
+        burst = "-in-burst-with-connect-response" if group[0].get("burst") else ""
+        for inj in group:
+            v = inj["verdict"]
+            want_ack = v in "ER"
+            want_cb = 1 if v == "E" else 0
+            got = []
+            if queue and queue[0][2] == inj["c"]:
+                got.append(queue.pop(0))
+                # a second acknowledgement of the same frame (not the one of a following duplicate)
+                following = sum(1 for other in group[group.index(inj) + 1:] if other["c"] == inj["c"] and other["verdict"] in "ER")
+                while queue and queue[0][2] == inj["c"] and sum(1 for q in queue if q[2] == inj["c"]) > following:
+                    got.append(queue.pop(0))
+            n_cb = cb_count.get((t, inj["tag"]), 0)
+            d = {"injection": inj, "acks": [x[1:] for x in got], "passed_up": n_cb,
+                 "frames_in_same_instant": [(g["c"], g["verdict"]) for g in group] if len(group) > 1 else None}
+            if len(got) != (1 if want_ack else 0):
+                problems.append((f"{name[v]}-frame{burst}-acknowledged-{len(got)}-times", d))
+            elif got and got[0][3] != "E_NO_ERROR":
+                problems.append((f"{name[v]}-frame{burst}-acknowledged-with-another-counter-or-status", d))
+            elif got and got[0][1] != inj["ch"]:
+                problems.append((f"{name[v]}-frame{burst}-acknowledged-on-another-channel", d))
+            if n_cb != want_cb:
+                problems.append((f"{name[v]}-frame{burst}-passed-up-{n_cb}-times", d))
+        for a in queue:
+            problems.append(("acknowledgement-with-a-counter-no-request-carried", {"ack": a[1:], "t": t}))
+    tags_at = {(inj["t"], inj["tag"]) for inj in injections}
     for a in acks:
-        if a[0] not in by_time:
+        if a[0] not in groups:
             problems.append(("acknowledgement-without-a-request", {"ack": a[1:], "t": a[0]}))
     for c in cbs:
-        if c[0] not in by_time:
+        if (c[0], c[1]) not in tags_at:
             problems.append(("frame-passed-up-without-a-request", {"tag": c[1], "t": c[0]}))
     want_order = [inj["tag"] for inj in injections if inj["verdict"] == "E"]
     got_order = [c[1] for c in cbs]
@@ -337,9 +375,9 @@ def judge(injections, acks, cbs):
     return problems
 
 
-def judge_history(ctx, kind, profile, ops, sample=False, route_back=False, gw_route_back=False):
+def judge_history(ctx, kind, profile, ops, sample=False, route_back=False, gw_route_back=False, burst=None, burst_seed=0):
     ctx.ev()
-    injections, acks, cbs, err, log, excs = run_history(kind, ops, route_back, gw_route_back)
+    injections, acks, cbs, err, log, excs = run_history(kind, ops, route_back, gw_route_back, burst, burst_seed)
     if err is not None:
         ctx.inconclusive(f"{kind} history did not finish: {err}")
         return
@@ -356,7 +394,13 @@ def judge_history(ctx, kind, profile, ops, sample=False, route_back=False, gw_ro
         ctx.count("loop_exceptions_recorded", len(excs))
     epochs = max([inj["epoch"] for inj in injections], default=0)
     ctx.count("connection_epochs", epochs)
+    if burst:
+        ctx.count(f"histories_burst_{burst}_{kind}")
     for inj in injections:
+        if inj.get("burst"):
+            ctx.count(f"burst_frames_{inj['verdict']}_{kind}")
+            ctx.count(f"burst_frames_{'rb' if route_back else 'hpai'}")
+            ctx.count("burst_frames_on_reconnect" if inj["epoch"] > 1 else "burst_frames_on_first_connect")
         ctx.count(f"verdict_{inj['verdict']}_{kind}")
         if inj["wrap"]:
             ctx.count(f"wrap_{inj['verdict']}")
@@ -364,19 +408,25 @@ def judge_history(ctx, kind, profile, ops, sample=False, route_back=False, gw_ro
             ctx.count(f"first_after_reconnect_{inj['verdict']}")
             if kind != "devmgmt":
                 ctx.count(f"first_after_reconnect_{kind}_{'rb' if route_back else 'hpai'}")
-    ctx.distinct((kind, route_back, gw_route_back, "".join(inj["verdict"] if inj["pos"] == "later" else inj["verdict"].lower() for inj in injections)))
+    ctx.distinct((kind, route_back, gw_route_back, burst, "".join(inj["verdict"] if inj["pos"] == "later" else inj["verdict"].lower() for inj in injections)))
     if sample:
         ctx.sample({"endpoint": kind, "route_back": route_back, "gateway_data_endpoint_route_back": gw_route_back,
                     "profile": profile, "ops": ops[:25],
                     "frames": [(inj["c"], inj["verdict"]) for inj in injections[:25]]}, cap=6)
+    problems = judge(injections, acks, cbs)
+    # only the first frame that was handled differently is reported: once the real counter and the reference have
+    # diverged, everything after it is a consequence and would blur the mechanism
+    first = min((d["injection"]["i"] for _m, d in problems if "injection" in d), default=None)
+    if first is not None:
+        problems = [(m, d) for m, d in problems if d.get("injection", {}).get("i") == first]
     seen = set()
-    for mech, detail in judge(injections, acks, cbs):
+    for mech, detail in problems:
         if mech in seen:
             continue
         seen.add(mech)
         short = [(inj["epoch"], inj["c"], inj["verdict"]) for inj in injections]
         ctx.violation(f"{kind}-{mech}", {"endpoint": kind, "profile": profile, "ops": ops, "detail": detail,
-                                          "route_back": route_back, "gw_route_back": gw_route_back,
+                                          "route_back": route_back, "gw_route_back": gw_route_back, "burst": burst, "burst_seed": burst_seed,
                                           "frames(epoch,counter,verdict)": short[:400]},
                       f"{kind}: {mech}: {str(detail)[:400]}")
 
@@ -384,12 +434,15 @@ def judge_history(ctx, kind, profile, ops, sample=False, route_back=False, gw_ro
 def run(ctx):
     n = ctx.scale(420, 10000)
     ctx.rule = (f"{n} generated histories (profiles lossy/adversarial/wrap/mixed, 20-80 ops, gaps around the 2 s timer) spread over "
-                f"{KINDS} x client route_back on/off x server data endpoint as address / route-back HPAI; distinct = (endpoint, string of reference verdicts with the first frame of each connection marked)")
+                f"{KINDS} x client route_back on/off x server data endpoint as address / route-back HPAI x (no burst | server frames in one burst with every ConnectResponse: same callback or call_soon); distinct = (endpoint, string of reference verdicts with the first frame of each connection marked)")
     ctx.require("frames_injected", "acks_observed", "frames_passed_up",
                 *(f"verdict_{v}_{k}" for v in "ERO" for k in KINDS),
                 "wrap_E", "wrap_R", "first_after_reconnect_E", "first_after_reconnect_O", "connection_epochs",
                 "first_after_reconnect_tunnel_rb", "first_after_reconnect_tunnel_hpai", "first_after_reconnect_devconn_rb",
-                "first_after_reconnect_devconn_hpai")
+                "first_after_reconnect_devconn_hpai", "burst_frames_on_first_connect", "burst_frames_on_reconnect",
+                "burst_frames_rb", "burst_frames_hpai",
+                *(f"burst_frames_{v}_{k}" for v in "ERO" for k in KINDS),
+                *(f"histories_burst_{b}_{k}" for b in ("same-callback", "call-soon") for k in KINDS))
     rng = ctx.rng
     for i in range(n):
         kind = KINDS[i % 3]
@@ -398,12 +451,16 @@ def run(ctx):
         profile, ops = gen_history(rng, kind, rng.randint(20, 80))
         if not ctx.mine(i):
             continue
-        judge_history(ctx, kind, profile, ops, sample=i < 6, route_back=route_back, gw_route_back=gw_route_back)
+        # every second block of 12 histories: server frames in one burst with each ConnectResponse
+        burst = (None, "same-callback", None, "call-soon")[(i // 12) % 4]
+        judge_history(ctx, kind, profile, ops, sample=i < 6, route_back=route_back, gw_route_back=gw_route_back,
+                      burst=burst, burst_seed=i)
 
 
 def replay(ctx, witness):
     ctx.rule = "replay of one recorded history"
     judge_history(ctx, witness["endpoint"], witness["profile"], witness["ops"],
-                  route_back=bool(witness.get("route_back")), gw_route_back=bool(witness.get("gw_route_back")))
+                  route_back=bool(witness.get("route_back")), gw_route_back=bool(witness.get("gw_route_back")),
+                  burst=witness.get("burst"), burst_seed=witness.get("burst_seed", 0))
     ctx.distinct("replay")
     ctx.distinct("replay2")
